@@ -68,6 +68,9 @@ def classify(w, core_text, kind):
             return "malformed-token-not-reported", {"token_kind": errk[0]}
         if "FLOAT" in toks and ("finite" in irerr or "number" in irerr.lower()):
             return "nonfinite-number-literal-not-reported", {}
+        if "invalid string escape" in irerr:
+            # the syntax-tree parser keeps string tokens as they are written and never decodes their escapes
+            return "invalid-string-escape-not-reported", {}
     if kind == "syntax-tree-parser:errors=True,default-accepts=True":
         if RE_UNARY_PLUS.search(tree):
             return "unary-plus-rejected", {}
@@ -85,13 +88,13 @@ def classify(w, core_text, kind):
         who = "syntax-tree-parser" if silent else "legacy-parser"
         if re.search(r"[(\[{,]\s*,|,\s*;", core_text):
             return "stray-comma-accepted-by-" + who, {}
-        if silent and re.search(r":\s+:", core_text):
+        if silent and re.search(r":(\s|/\*.*?\*/|//[^\n]*\n|#[^\n]*\n)+:", core_text, re.S):
             return "spaced-colons-accepted-by-syntax-tree-parser", {}
         if silent and re.search(r"\?\?", core_text):
             return "null-coalesce-operator-accepted-by-syntax-tree-parser", {}
         if silent and re.search(r"[\[{].*if\b", core_text) and not re.search(r"\bfor\b", core_text):
             return "comprehension-without-for-accepted-by-syntax-tree-parser", {}
-        if legacy_lax and re.search(r"(?<![\w.])0\d", core_text):
+        if legacy_lax and re.search(r"(?<![\w.])0[\d_]", core_text):
             return "leading-zero-number-accepted-by-legacy-parser", {}
         if legacy_lax and re.search(r"\d\.[A-Za-z_]", core_text):
             return "number-dot-identifier-accepted-by-legacy-parser", {}
@@ -99,7 +102,7 @@ def classify(w, core_text, kind):
             return "keyword-boundary-ignored-by-legacy-parser", {}
     if kind.startswith("accept:") and "|||" in core_text:
         return "text-block-edge-case-" + ("rejected" if kind.endswith("legacy=False") else "accepted") + "-by-legacy-parser", {}
-    if silent and re.search(r"\bfor\b.*,\s*[\]}]", core_text, re.S):
+    if silent and re.search(r"\bfor\b.*,\s*([\]}]|for\b|if\b)", core_text, re.S):
         return "comma-after-comprehension-accepted-by-syntax-tree-parser", {}
     if silent and re.search(r"\?\.", core_text):
         return "null-coalesce-operator-accepted-by-syntax-tree-parser", {}
@@ -153,6 +156,11 @@ def process(acc, w, items, stats_key):
                 # budget exhausted: classify the unreduced text (still decided by the real parsers)
                 core_text = text
             cls, feat = classify(w, core_text, k)
+            if cls == "other" and core_text == text and acc.n.get("reduced_other", 0) < 2000:
+                # an unreduced text that no class explains is reduced after all before it is reported
+                acc.inc("reduced_other")
+                core_text = sep.join(reduce_core(w, units, sep, k))
+                cls, feat = classify(w, core_text, k)
             sig = {"oracle": k, "class": cls}
             sig.update(feat)
             acc.add("disagreement_classes", cls)
